@@ -23,6 +23,15 @@ for i in range(1, 21):
     fns |= {f for f in rep.analysed_functions if f in P.functions}
     for f_ in rep.analysed_functions:
         props.setdefault(f_, []).append(pid)
+# local functions of the analysed functions carry the same obligations (they are part of the analysed body)
+todo = list(fns)
+while todo:
+    q = todo.pop()
+    for nf in getattr(P.functions[q], "nested", {}).values():
+        if nf.qual in P.functions and nf.qual not in fns:
+            fns.add(nf.qual)
+            props[nf.qual] = list(props.get(q, []))
+            todo.append(nf.qual)
 ctx = Ctx(P)
 out = {}
 for q in sorted(fns):
